@@ -674,6 +674,10 @@ def run(repo, rep, tier):
                             stmt=f"key {wk.path}: {sorted(wfields)} -> {sorted(rfields)}")
         inverse_pairs(repo, rep, r1, c, m, wf, wkeys, ed)
         # ---------------- R4.2
+        for kp, (missing, nd) in sorted(getattr(rm, "partial_nanstr", {}).items()):
+            r2.ob(False)
+            rep.finding("R4.2", rm.f, nd, f"the reader admits only part of the string encodings for `{kp}` (`{ast.unparse(nd)[:60]}`): {missing} is what floatToJson writes for "
+                        f"that non-finite value, so a document toJson produced for such a state is rejected on reload", stmt=f"key {kp}: encodings {missing} not accepted")
         for wk in wkeys:
             if wk.child_call is not None and not wk.level:
                 if not any(w2.level.startswith(wk.key + "[]") for w2 in wkeys):
@@ -696,11 +700,11 @@ def run(repo, rep, tier):
         for p, e in edexprs.items():
             kps = rm.K(e, rm.env)
             for kp in kps:
-                if kp in rm.accepts_nanstr and isinstance(e, ast.Name):
+                if kp in rm.accepts_nanstr and (isinstance(e, ast.Name) or rm.keypath(e) == kp):
                     # find the assignment(s) of that local: must be float(json[k])
-                    decoded = True
+                    decoded = rm.keypath(e) != kp          # the raw read itself handed on
                     for n in walk_local_stmt(rm.f.node):
-                        if isinstance(n, ast.Assign) and any(isinstance(t, ast.Name) and t.id == e.id for t in n.targets):
+                        if isinstance(e, ast.Name) and isinstance(n, ast.Assign) and any(isinstance(t, ast.Name) and t.id == e.id for t in n.targets):
                             v = n.value
                             if rm.keypath(v) == kp:
                                 decoded = False
@@ -709,7 +713,7 @@ def run(repo, rep, tier):
                     if not decoded and not _ed_floats(ed, p):
                         r2.ob(False)
                         rep.finding("R4.2", rm.f, e, f"`{kp}` may be the string 'nan'/'inf'/'-inf' (the reader admits it) but is handed "
-                                    f"to ed({p}=...) undecoded, where the numeric validation rejects it", stmt=f"key {kp}: not decoded")
+                                    f"to ed({p}=...) undecoded, where the numeric validation rejects it or the raw string becomes the object's state (entries == 'inf': the reloaded object fails in + and *)", stmt=f"key {kp}: not decoded")
                     else:
                         r2.ob(True, f"{c.name}: `{kp}` decoded before use")
         # ---------------- R4.3
@@ -760,6 +764,10 @@ def _ed_floats(ed, p):
                 n.left, ast.Name) and n.left.id == p and isinstance(n.comparators[0], (ast.Tuple, ast.List)):
             vals = [e.value for e in n.comparators[0].elts if isinstance(e, ast.Constant)]
             if vals and set(vals) <= {"nan", "inf", "-inf"}:
+                # ... then the value it stores must be the converted one
+                for st in ast.walk(ed.node):
+                    if isinstance(st, ast.Assign) and isinstance(st.value, ast.Name) and st.value.id == p and any(isinstance(t, ast.Attribute) for t in st.targets):
+                        return False
                 return True
     uses = [n for n in ast.walk(ed.node) if isinstance(n, ast.Name) and n.id == p and isinstance(n.ctx, ast.Load)]
     pm = {}
@@ -774,6 +782,9 @@ def _ed_floats(ed, p):
             continue
         if isinstance(par, ast.Call) and isinstance(par.func, ast.Name) and par.func.id == "isinstance":
             # validation that rejects strings
+            stored = True
+        if isinstance(par, ast.Assign) and par.value is u and any(isinstance(t, ast.Attribute) for t in par.targets):
+            # `out.entries = entries`: the raw (possibly string) value becomes the object's state
             stored = True
     return not stored
 
